@@ -10,6 +10,7 @@ Local Open Scope N_scope.
 Definition O_RES : N := 5.    (* 5 code : a command finished (0 false/filtered, 1 done/true, 2 parked) *)
 Definition O_POLLEND : N := 6.
 Definition O_CTX : N := 7.    (* 7 n : number of registered thread contexts *)
+Definition O_INJ : N := 8.    (* 8 yield visit : commands injected at this yield point start now *)
 
 Inductive cmd :=
 | CLog (t : nat) (e : ev) (stall : bool)
@@ -155,7 +156,9 @@ Fixpoint poll_loop (cn : nat) (fuel : nat) (sx : st * list op) (inj : list (N * 
       | p =>
           let y := yield_of p in
           let (cnt', v) := bump y cnt in
-          let sx2 := fold_left exec_simple (find_inj y v inj) sx1 in
+          let cs := find_inj y v inj in
+          let sx1' := match cs with [] => sx1 | _ => note sx1 [O_INJ; y; v] end in
+          let sx2 := fold_left exec_simple cs sx1' in
           poll_loop cn f sx2 inj cnt'
       end
   end.
